@@ -205,6 +205,27 @@ pub fn check_fixed(width: usize, len: usize, trailing: &[u8]) -> CheckResult {
         15 => fixed_case!(15, len, trailing),
         16 => fixed_case!(16, len, trailing),
         17 => fixed_case!(17, len, trailing),
+        18 => fixed_case!(18, len, trailing),
+        19 => fixed_case!(19, len, trailing),
+        20 => fixed_case!(20, len, trailing),
+        24 => fixed_case!(24, len, trailing),
+        31 => fixed_case!(31, len, trailing),
+        32 => fixed_case!(32, len, trailing),
+        33 => fixed_case!(33, len, trailing),
+        34 => fixed_case!(34, len, trailing),
+        40 => fixed_case!(40, len, trailing),
+        48 => fixed_case!(48, len, trailing),
+        63 => fixed_case!(63, len, trailing),
+        64 => fixed_case!(64, len, trailing),
+        65 => fixed_case!(65, len, trailing),
+        100 => fixed_case!(100, len, trailing),
+        127 => fixed_case!(127, len, trailing),
+        128 => fixed_case!(128, len, trailing),
+        129 => fixed_case!(129, len, trailing),
+        255 => fixed_case!(255, len, trailing),
+        256 => fixed_case!(256, len, trailing),
+        257 => fixed_case!(257, len, trailing),
+        1000 => fixed_case!(1000, len, trailing),
         _ => Ok(()),
     }
 }
@@ -335,6 +356,15 @@ pub fn run(tier: Tier) -> i32 {
             }
         }
     }
+    // wider fields than any shipped packet uses (the style is generic in its width)
+    for w in [18usize, 19, 20, 24, 31, 32, 33, 34, 40, 48, 63, 64, 65, 100, 127, 128, 129, 255, 256, 257, 1000] {
+        for len in 0..=w {
+            let r = check_fixed(w, len, if len % 2 == 0 { &[] } else { &[0x7f, 0x00] });
+            stats.case(true, fnv(format!("fixed/{w}/{len}").as_bytes()));
+            stats.class("fixed:wide");
+            ctx.record(r, &mut stats);
+        }
+    }
     for n in [0usize, 1, 5, 300] {
         let data: Vec<u8> = (0..n).map(|i| i as u8).collect();
         let r = check_empty(&data, n);
@@ -397,7 +427,7 @@ pub fn run(tier: Tier) -> i32 {
     stats.exhaustive_parts = vec![
         "every length 0..=65535 of Tlv and Adpu, 0..=99 of Llv, 0..=999 of Lllv, each with trailing data of 0, 1 and 5 bytes and as a complete object (exactly n bytes)".into(),
         "19 representative lengths per style x every amount of trailing data 0..=1100 and 4095, 4096, 65535..65537, 65791, 65792, 100000".into(),
-        "Fixed<N> for N=1..=17 x every payload length 0..=N".into(),
+        "Fixed<N> for N=1..=17 x every payload length 0..=N x 3 trailers; N in {18..20, 24, 31..34, 40, 48, 63..65, 100, 127..129, 255..257, 1000} x every payload length".into(),
         "every byte string of length 0..=3 through Tlv, Adpu, Llv, Lllv parsers".into(),
     ];
     ctx.finish(
